@@ -154,6 +154,13 @@ def run(ctx):
                 files = [SETDIR + "/n1.dat"] + ([SETDIR + "/sub/n2.dat"] if extn != ".par" or True else [])
                 args = ["c"] + extra + [spell(SETDIR + "/new" + extn, cwd, how)] + [spell(f, cwd, how) for f in files]
                 cases.append(("create %s %s|cwd=%s|%s" % (extn, " ".join(extra), cwd, how), cwd, "rel" if (how == "rel" and extn != ".par2") else "abs", args, inputs))
+    # integer flags in every spelling Go's flag package (strconv.ParseInt base 0) accepts, and some it rejects (usage, 3)
+    for cval in ("0x2", "010", "1_0", "0b11", "0o3", "+2", "08", "1__0", "0x", "2_", "0x1_", "9223372036854775808"):
+        cases.append(("create .par2 -c %s|cwd=%s|abs" % (cval, SETDIR), SETDIR, "abs",
+                      ["c", "-s", "8", "-c", cval, SETDIR + "/new.par2", SETDIR + "/n1.dat"], inputs))
+    for gval in ("0x2", "0_2", "02", "-0"):
+        cases.append(("create .par2 -g %s|cwd=%s|abs" % (gval, SETDIR), SETDIR, "abs",
+                      ["-g", gval, "c", "-s", "8", SETDIR + "/new.par2", SETDIR + "/n1.dat"], inputs))
     args_missing = ["c", spell(SETDIR + "/new.par2", SETDIR, "rel"), "nonexistent.dat"]
     cases.append(("create missing input", SETDIR, "abs", args_missing, inputs))
     # usage errors
